@@ -37,6 +37,13 @@ CHECKS = {
             "from the path argument (9 path forms incl. None, non-existent, unicode, archive!/member, existing file) and textual document properties differing from what the generator stored are reported.",
             "Contracts observe only classes the workload reaches (17 content classes required, else inconclusive); properties compared per DESIGN.md Appendix B.",
             "DESIGN.md §8 C04, Appendix B"),
+    "C05": ("exploration",
+            "round-trip monitor: json.dumps(to_json()) -> from_json -> to_json on every result and unit of the corpus, type-directed instances of every registered dataclass, binary-exclusion walk, CLI JSON comparison",
+            "Every result and unit produced from fixtures and generated documents (incl. every risky feature) is serialised with the standard encoder, rebuilt and compared (type, canonical JSON, full text, "
+            "units, tables, binary payloads); include_binary=False may differ only at the binary leaves found by walking the object graph; --json/--json-unit/--binary output is compared with the same JSON; "
+            "each registered dataclass is instantiated from its type hints with marker-vocabulary strings and round-tripped.",
+            "Fields that differ between two fresh in-process extractions (C06's findings) are masked in the CLI comparison so C05 does not re-report them.",
+            "DESIGN.md §8 C05"),
     "C07": ("exploration",
             "recording stubs on the 21 extractor functions + README-derived routing table; path grammar x 5 mimetypes configurations, each in its own worker process",
             "A routing table transcribed by hand from the README decides which extractor every documented extension/alias must reach; a path grammar (all known extensions, case variants, "
